@@ -362,15 +362,31 @@ impl Ord for Num {
             (Self::Int(i), Self::Float(f)) => float_cmp(*i as f64, *f),
             (Self::BigInt(x), Self::Int(y)) => (**x).cmp(&BigInt::from(*y)),
             (Self::BigInt(x), Self::BigInt(y)) => x.cmp(y),
-            // BigInt::to_f64 always yields Some, large values become f64::INFINITY
-            (Self::BigInt(x), Self::Float(y)) => float_cmp(x.to_f64().unwrap(), *y),
+            (Self::BigInt(x), Self::Float(y)) => big_float_cmp(x, *y),
             (Self::Float(f), Self::Int(i)) => float_cmp(*f, *i as f64),
-            (Self::Float(x), Self::BigInt(y)) => float_cmp(*x, y.to_f64().unwrap()),
+            (Self::Float(x), Self::BigInt(y)) => big_float_cmp(y, *x).reverse(),
             (Self::Float(x), Self::Float(y)) => float_cmp(*x, *y),
             (Self::Dec(x), Self::Dec(y)) if Rc::ptr_eq(x, y) => Ordering::Equal,
             (Self::Dec(n), y) => Self::from_dec_str(n).cmp(y),
             (x, Self::Dec(n)) => x.cmp(&Self::from_dec_str(n)),
         }
+    }
+}
+
+/// Compare a big integer with a float.
+///
+/// `BigInt::to_f64` always yields `Some`, where large values become infinite.
+/// However, any integer lies strictly between negative and positive infinity.
+fn big_float_cmp(left: &BigInt, right: f64) -> Ordering {
+    let l = left.to_f64().unwrap();
+    if l.is_infinite() && l == right {
+        if l > 0. {
+            Ordering::Less
+        } else {
+            Ordering::Greater
+        }
+    } else {
+        float_cmp(l, right)
     }
 }
 
